@@ -462,7 +462,7 @@ func (e *Exec) next(it *IterV, x *ssa.Next) (Value, *GoPanic) {
 	tup := x.Type().(*types.Tuple)
 	for {
 		if len(it.Rest) == 0 {
-			return &TupleV{E: []Value{tb.F, e.zero(tup.At(1).Type()), e.zero(tup.At(2).Type())}}, nil
+			return &TupleV{E: []Value{tb.F, e.zeroOrNil(tup.At(1).Type()), e.zeroOrNil(tup.At(2).Type())}}, nil
 		}
 		i := 0
 		if e.symMapOrd {
@@ -691,6 +691,27 @@ func (e *Exec) callBuiltin(b *ssa.Builtin, args []Value, call *ssa.Call) (Value,
 			r = tb.Ite(lt, t, r)
 		}
 		return r, nil
+	case "clear":
+		switch a := args[0].(type) {
+		case *SliceV:
+			if a.Len > 0 {
+				arr := sliceArr(a)
+				var et types.Type = types.Typ[types.Uint8]
+				if call != nil {
+					if st, ok := call.Call.Args[0].Type().Underlying().(*types.Slice); ok {
+						et = st.Elem()
+					}
+				}
+				for i := 0; i < a.Len; i++ {
+					arr.E[a.Off+i] = e.zero(et)
+				}
+			}
+		case *MapV:
+			if a.M != nil {
+				a.M.Entries = nil
+			}
+		}
+		return nil, nil
 	case "ssa:wrapnilchk":
 		p := args[0].(*Ptr)
 		if p.IsNil() {
@@ -699,4 +720,12 @@ func (e *Exec) callBuiltin(b *ssa.Builtin, args []Value, call *ssa.Call) (Value,
 		return p, nil
 	}
 	panic(unsupported("builtin " + b.Name()))
+}
+
+// zeroOrNil is zero() tolerant of the invalid type go/ssa gives unused range components.
+func (e *Exec) zeroOrNil(t types.Type) Value {
+	if b, ok := t.(*types.Basic); ok && b.Kind() == types.Invalid {
+		return nil
+	}
+	return e.zero(t)
 }
